@@ -92,7 +92,7 @@ func ParseKind(kind, s string) (r presult) {
 
 // classes the property names explicitly as "is rejected"
 func explicitReject(class string) bool {
-	for _, p := range []string{"wrongcase", "mixedcase", "hrp_", "len", "padbits", "surplus", "space_in", "kelvin", "longs", "fullwidth", "doti", "sep_moved", "truncated", "extended", "empty", "only_sep", "no_sep", "short_data"} {
+	for _, p := range []string{"wrongcase", "mixedcase", "plugin_hrp", "plugin_native", "hrp_", "len", "padbits", "surplus", "space_in", "kelvin", "longs", "fullwidth", "doti", "sep_moved", "truncated", "extended", "empty", "only_sep", "no_sep", "short_data"} {
 		if strings.HasPrefix(class, p) {
 			return true
 		}
